@@ -16,6 +16,7 @@
   `Gen/C17Query.lean`, re-translated from the source on every run.
 -/
 import CogentModel.Model.AnnotDb
+import CogentModel.Model.AnnotDbRoundTrip
 import CogentModel.Gen.C17Query
 namespace CogentModel.AnnotDb
 open CogentModel.Gen.C17Query
@@ -166,5 +167,29 @@ def gbChildrenX (db : XDb) (name : String) (biotype exclude : Option String) (st
 def gbParentX (db : XDb) (name : String) (exclude : Option String) (start stop : Int) : Except Err (List XRec) :=
   let c := familyCandidates db name none
   if c.all (·.located) then .ok (c.filter (familyKeep parentSkip exclude start stop)) else .error .typeError
+
+/-! ### `to_rich_dict` / `from_dict` on rows that may lack a location (as repaired by 26f741b86) -/
+
+/-- one row of `to_rich_dict`: the NON-NULL columns; `spans` is converted to a list only `if "spans" in store`
+(a row without a location has none of spans / start / stop); `on_alignment` (user table) travels as 0 / 1 -/
+def xrecToRich (r : XRec) : Rich :=
+  optField "seqid" r.row.seqid ++ optField "biotype" r.row.biotype ++ optField "name" r.row.name ++
+  optField "strand" r.row.strand ++ optField "attributes" r.row.attrs ++
+  (if r.located then [("spans", .spans r.row.spans), ("start", .int r.row.start), ("stop", .int r.row.stop)] else []) ++
+  (match r.onAln with | none => [] | some b => [("on_alignment", .int (if b then 1 else 0))])
+
+/-- the row `_update_db_from_rich_dict` inserts: `spans` becomes an array only
+`if record.get("spans") is not None`; absent keys become NULL -/
+def richToXRec (d : Rich) : XRec :=
+  { row := richToRec d, located := (d.lookup "spans").isSome,
+    onAln := match d.lookup "on_alignment" with | some (.int n) => some (n != 0) | _ => none }
+
+/-- `deserialise_object(db.to_json())` of an in-memory db, table by table -/
+def jsonRoundTripX (db : XDb) : XDb :=
+  { kind := db.kind, main := db.main.map fun r => richToXRec (xrecToRich r),
+    user := db.user.map fun r => richToXRec (xrecToRich r) }
+
+/-- the representation convention of a row without location (what `parseXRec` and `gbRow` produce) -/
+def XRec.normal (r : XRec) : Bool := r.located || (r.row.spans == [] && r.row.start == 0 && r.row.stop == 0)
 
 end CogentModel.AnnotDb
